@@ -2,6 +2,7 @@ SPECIFICATION TSpec
 CONSTANTS
   NamesUsed = {"r1", "l1", "l2", "m1"}
   InitAuto = FALSE
+  Broken = FALSE
   TwoPaths = FALSE
   MaxLen = 100000
 POSTCONDITION Post
